@@ -136,7 +136,8 @@ func ruleBranch(c *Ctx) {
 	if o == nil {
 		return
 	}
-	cls := summariseClassifier(c.L.SSAFunc("internal/codegen", "getOffsetSize"))
+	branchClassifierFn = c.L.SSAFunc("internal/codegen", "getOffsetSize")
+	cls := summariseClassifier(branchClassifierFn)
 	jtab, _, _ := jccTable(c)
 	jccBytes := map[byte]bool{}
 	for _, v := range jtab {
@@ -361,7 +362,7 @@ func pathBounds(p *pathInfo, lv linear, cls classifier) (lo, hi *int64, k int64,
 		if bo.Op == token.EQL && g.Taken && cls != nil {
 			call, isCall := bo.X.(*ssa.Call)
 			kc, isK := bo.Y.(*ssa.Const)
-			if isCall && isK && strings.HasSuffix(calleeName(&call.Call), ".getOffsetSize") {
+			if isCall && isK && branchClassifierFn != nil && call.Call.StaticCallee() == branchClassifierFn {
 				lw := p.linearOf(call.Call.Args[0])
 				if sameTerms(lw, lv) {
 					if iv, ok := cls[kc.Int64()]; ok {
@@ -461,3 +462,6 @@ func pathDependsOnField(p *pathInfo, v ssa.Value, fld string) bool {
 	}
 	return walk(v)
 }
+
+// branchClassifierFn: the displacement-width classifier (getOffsetSize, or whatever it is called today).
+var branchClassifierFn *ssa.Function
